@@ -241,6 +241,12 @@ func (l *commitLog) Append(msgs []*Message) ([]int64, error) {
 	// truncated between assigning the offsets and writing the messages.
 	l.mu.RLock()
 	defer l.mu.RUnlock()
+	// Check again now that the lock is held. SetReadonly takes the write lock
+	// to tell committed readers at the LEO that no more data will come, so
+	// the log must not grow if it became readonly since the check above.
+	if l.IsReadonly() {
+		return nil, ErrCommitLogReadonly
+	}
 	var (
 		segment          = l.activeSegment()
 		basePosition     = segment.Position()
